@@ -525,6 +525,129 @@ func concFacts(p *packages.Package, fd *ast.FuncDecl) []string {
 	return out
 }
 
+// skelTrace: the fork/join skeleton of a function as an ordered trace of its top-level statements:
+// channel make, deferred close, the loop with its go statements (wg.Add directly before each,
+// leading defers in source order, captured writes, call arguments), the store of the last slot,
+// wg.Wait, the non-blocking receive that re-panics, the return.
+func skelTrace(p *packages.Package, fd *ast.FuncDecl) []string {
+	var out []string
+	isWg := func(c *ast.CallExpr, name string) bool {
+		s, ok := c.Fun.(*ast.SelectorExpr)
+		if !ok || s.Sel.Name != name {
+			return false
+		}
+		id, ok := s.X.(*ast.Ident)
+		return ok && strings.Contains(strings.ToLower(id.Name), "wg")
+	}
+	var goIn func(list []ast.Stmt)
+	goIn = func(list []ast.Stmt) {
+		for k, st := range list {
+			switch x := st.(type) {
+			case *ast.GoStmt:
+				add := false
+				if k > 0 {
+					if es, ok := list[k-1].(*ast.ExprStmt); ok {
+						if c, ok := es.X.(*ast.CallExpr); ok && isWg(c, "Add") && len(c.Args) == 1 && src(c.Args[0]) == "1" {
+							add = true
+						}
+					}
+				}
+				facts := concFacts(p, &ast.FuncDecl{Body: &ast.BlockStmt{List: []ast.Stmt{x}}})
+				desc := "go ?"
+				for _, f := range facts {
+					if strings.HasPrefix(f, "go ") {
+						desc = f
+					}
+				}
+				var args []string
+				for _, a := range x.Call.Args {
+					args = append(args, src(a))
+				}
+				var params []string
+				if fl, ok := x.Call.Fun.(*ast.FuncLit); ok {
+					for _, f := range fl.Type.Params.List {
+						for _, n := range f.Names {
+							params = append(params, n.Name)
+						}
+					}
+				}
+				out = append(out, fmt.Sprintf("%s%s params(%s) args(%s)", map[bool]string{true: "add1; ", false: ""}[add], desc, strings.Join(params, ","), strings.Join(args, ",")))
+			case *ast.AssignStmt:
+				if len(x.Lhs) == 1 {
+					if ix, ok := x.Lhs[0].(*ast.IndexExpr); ok {
+						out = append(out, "main-store "+src(ix.X)+"["+src(ix.Index)+"]")
+					}
+				}
+			case *ast.SwitchStmt:
+				for _, cc := range x.Body.List {
+					goIn(cc.(*ast.CaseClause).Body)
+				}
+			case *ast.IfStmt:
+				goIn(x.Body.List)
+				if b, ok := x.Else.(*ast.BlockStmt); ok {
+					goIn(b.List)
+				}
+			case *ast.BlockStmt:
+				goIn(x.List)
+			}
+		}
+	}
+	for _, st := range fd.Body.List {
+		switch x := st.(type) {
+		case *ast.AssignStmt:
+			if len(x.Rhs) == 1 {
+				if c, ok := x.Rhs[0].(*ast.CallExpr); ok {
+					if id, ok := c.Fun.(*ast.Ident); ok && id.Name == "make" && len(c.Args) >= 1 {
+						if _, ok := c.Args[0].(*ast.ChanType); ok {
+							cap := "0"
+							if len(c.Args) == 2 {
+								cap = src(c.Args[1])
+							}
+							out = append(out, "chan "+src(x.Lhs[0])+" cap="+cap)
+						}
+					}
+				}
+				if ix, ok := x.Lhs[0].(*ast.IndexExpr); ok && len(x.Lhs) == 1 {
+					out = append(out, "store "+src(ix.X)+"["+src(ix.Index)+"]")
+				}
+			}
+		case *ast.DeferStmt:
+			out = append(out, "defer "+src(x.Call))
+		case *ast.RangeStmt:
+			out = append(out, "loop "+src(x.Key)+" over "+src(x.X))
+			goIn(x.Body.List)
+			out = append(out, "end-loop")
+		case *ast.ExprStmt:
+			if c, ok := x.X.(*ast.CallExpr); ok && isWg(c, "Wait") {
+				out = append(out, "wait")
+			}
+		case *ast.SelectStmt:
+			desc := "select"
+			for _, cl := range x.Body.List {
+				cc := cl.(*ast.CommClause)
+				if cc.Comm == nil {
+					desc += " default"
+					continue
+				}
+				txt := src(cc.Comm)
+				body := ""
+				for _, b := range cc.Body {
+					body += src(b) + ";"
+				}
+				desc += " case{" + txt + " => " + body + "}"
+			}
+			out = append(out, desc)
+		case *ast.ReturnStmt:
+			var rs []string
+			for _, r := range x.Results {
+				rs = append(rs, src(r))
+			}
+			out = append(out, "return "+strings.Join(rs, ","))
+		}
+	}
+	return out
+}
+
 func uniq(s []string) []string {
 	var out []string
 	for i, v := range s {
@@ -800,6 +923,8 @@ func main() {
 	emit("revocation_ValidateContext_conc", concFacts(rev, mustFunc(rev, "revocation.ValidateContext")))
 	ro := pkg("revocation/ocsp")
 	emit("ocsp_CheckStatus_conc", concFacts(ro, mustFunc(ro, "CheckStatus")))
+	emit("revocation_ValidateContext_skel", skelTrace(rev, mustFunc(rev, "revocation.ValidateContext")))
+	emit("ocsp_CheckStatus_skel", skelTrace(ro, mustFunc(ro, "CheckStatus")))
 	emit("timestamp_revocationResult", guardFacts(mustFunc(pkg("internal/timestamp"), "revocationResult")))
 	sw("end NotationCore.Generated.Shape")
 
